@@ -9,6 +9,7 @@ import (
 	"errors"
 	"fmt"
 	"math"
+	"runtime"
 	"sort"
 	"strconv"
 	"strings"
@@ -306,7 +307,21 @@ func atoi(b []byte) (int64, bool) {
 	return n, err == nil
 }
 
-func (ss *Session) apply(name string, args [][]byte) interface{} {
+// apply runs one command. A command with too few arguments for the model's handler is answered the way Redis
+// answers an arity error (Redis checks arity before touching any data).
+func (ss *Session) apply(name string, args [][]byte) (reply interface{}) {
+	defer func() {
+		if x := recover(); x != nil {
+			if _, ok := x.(runtime.Error); !ok {
+				panic(x)
+			}
+			reply = ErrReply("ERR wrong number of arguments for '" + name + "' command")
+		}
+	}()
+	return ss.apply0(name, args)
+}
+
+func (ss *Session) apply0(name string, args [][]byte) interface{} {
 	s := ss.Srv
 	if r, ok := s.fault(name, args); ok {
 		return r
